@@ -1,9 +1,13 @@
+\* Sample of the design-theorem configuration (thorough size); checks/C14.py writes its own from the same template.
 SPECIFICATION Spec
 CONSTANTS Kind = "theorem"
           Mode = "vbft"
           Rule = "legacy"
           N = 3
           FullN = 3
+          NsLegacy = {}
+          NsBft = {}
+          NsSolo = {}
           Cfgs = {}
           Lists = {}
           Paths = {}
